@@ -2,7 +2,8 @@ package main
 
 // C15 small scope, enumerated: every value of a small menu for every type of size <= 2
 // (quick) / <= 3 (thorough) against EVERY constraint obtained by replacing any subset of
-// its sub-type positions by the placeholder.
+// its sub-type positions by the placeholder (and marking the attributes of any subset of the
+// object constraints optional).
 
 import (
 	"fmt"
@@ -84,7 +85,8 @@ func c15MenuVals(t cty.Type) []cty.Value {
 }
 
 // c15AllWeakenings: every constraint obtained from t by replacing any set of sub-type
-// positions by the placeholder (t itself included).
+// positions by the placeholder (t itself included), object constraints also with all their
+// attributes marked optional.
 func c15AllWeakenings(t cty.Type) []cty.Type {
 	out := []cty.Type{cty.DynamicPseudoType}
 	switch {
@@ -134,6 +136,10 @@ func c15AllWeakenings(t cty.Type) []cty.Type {
 		}
 		for _, c := range combos {
 			out = append(out, cty.Object(c))
+			if len(keys) > 0 {
+				// … and the same constraint with every attribute marked optional
+				out = append(out, cty.ObjectWithOptionalAttrs(c, keys))
+			}
 		}
 	default:
 		out = append(out, t)
@@ -161,5 +167,5 @@ func runC15Enum(ctx *Ctx) {
 	ctx.res.Exhaustive = true
 	ctx.res.Scope = fmt.Sprintf("all %d types of size<=%d over {bool,number,string,list,set,map,tuple(<=2),object{a,b}} x a menu of %d values "+
 		"(null, empty, singleton, pair with a null member; three numbers, three strings) x ALL %d constraints obtained by replacing any subset of "+
-		"sub-type positions by the placeholder: round trip, correspondence of Marshal and Unmarshal, and Lean's hypothesis predicates", nT, maxSize, nV, nC)
+		"sub-type positions by the placeholder and marking the attributes of any subset of its object constraints optional: round trip, correspondence of Marshal and Unmarshal, and Lean's hypothesis predicates", nT, maxSize, nV, nC)
 }
